@@ -29,18 +29,36 @@ Lemma mstep_write_img sh m o st n ok rs m' :
   m_img m' = iset (m_img m) o (mk_cell st n ok) /\
   (mono_obj o = true -> is_cf (ist (m_img m) o) = true -> st = ist (m_img m) o).
 Proof.
-  unfold mstep, mstep_c, write_step, ist.
+  unfold mstep, mstep_c, write_step, ist. cbv zeta.
+  match goal with |- context [let '(acode, acts') := ?X in _] => destruct X as [acode acts'] end.
   destruct (mono_obj o && is_cf (c_st (iget (m_img m) o)) && negb (status_eqb st (c_st (iget (m_img m) o)))) eqn:E1.
-  { simpl. discriminate. }
-  destruct (is_some (m_rel m) && negb _) eqn:E2.
   { simpl. discriminate. }
   assert (K : mono_obj o = true -> is_cf (c_st (iget (m_img m) o)) = true -> st = c_st (iget (m_img m) o)).
   { intros Hm Hc. rewrite Hm, Hc in E1. simpl in E1. apply negb_false_iff in E1. now apply status_eqb_eq in E1. }
-  destruct o as [|sc g|b|b q|a]; simpl; try (intro H; injection H as <-; split; [reflexivity|exact K]).
-  destruct (cell_eqb _ _).
-  - simpl. intro H. injection H as <-. split; [reflexivity|exact K].
-  - destruct (awrite _ _ _ _ _) as [c r']. destruct (Nat.eqb c 0); [|discriminate].
-    intro H. injection H as <-. split; [reflexivity|exact K].
+  destruct (is_some (m_rel m) && _); [simpl; discriminate|].
+  destruct (Nat.eqb acode 0); [|discriminate].
+  intro H. injection H as <-. split; [reflexivity|exact K].
+Qed.
+
+Lemma mstep_write_reason sh m o st n ok rs m' :
+  mstep sh m (EvWrite o st n ok rs) = Some m' ->
+  m_reason m' = match o with OPlan => rs | _ => m_reason m end.
+Proof.
+  unfold mstep, mstep_c, write_step. cbv zeta.
+  match goal with |- context [let '(acode, acts') := ?X in _] => destruct X as [acode acts'] end.
+  match goal with |- context [Nat.eqb ?c 0] => destruct (Nat.eqb c 0) end; [|discriminate].
+  intro H. injection H as <-. reflexivity.
+Qed.
+
+Lemma mstep_other_reason sh m e m' :
+  mstep sh m e = Some m' -> (forall o st n ok rs, e <> EvWrite o st n ok rs) -> m_reason m' = m_reason m.
+Proof.
+  intros H N. unfold mstep, mstep_c in H. destruct e as [a|a o|o st n ok rs|snap|fin].
+  - destruct (Nat.eqb _ 0); [|discriminate]. now injection H as <-.
+  - destruct (end_rec _ _); simpl in H; [|discriminate]. now injection H as <-.
+  - exfalso. eapply N. reflexivity.
+  - destruct (m_rel m); [destruct (images_agree _ _ _)|]; simpl in H; try discriminate; now injection H as <-.
+  - destruct (Nat.eqb _ 0); [|discriminate]. now injection H as <-.
 Qed.
 
 Lemma mstep_other_img sh m e m' :
@@ -51,8 +69,7 @@ Proof.
   - destruct (end_rec _ _); simpl in H; [|discriminate]. now injection H as <-.
   - exfalso. eapply N. reflexivity.
   - destruct (m_rel m); [destruct (images_agree _ _ _)|]; simpl in H; try discriminate; now injection H as <-.
-  - destruct (negb _); [simpl in H; discriminate|]. destruct (negb _); simpl in H; [discriminate|].
-    now injection H as <-.
+  - destruct (Nat.eqb _ 0); [|discriminate]. now injection H as <-.
 Qed.
 
 (* no monitor step moves a block / sequence / sequence action out of Completed / Failed *)
@@ -76,6 +93,16 @@ Proof.
     destruct e as [a|a x|o st n ok rs|snap|fin];
       try (rewrite (mstep_other_img _ _ _ _ E); [reflexivity|intros; discriminate]).
     destruct (mstep_write_img _ _ _ _ _ _ _ _ E) as (-> & _). reflexivity.
+Qed.
+
+Lemma mfold_reason sh tr : forall m m', mfold sh m tr = Some m' -> m_reason m' = wreason tr (m_reason m).
+Proof.
+  induction tr as [|e tr IH]; intros m m' H; simpl in H.
+  - now injection H as <-.
+  - destruct (mstep sh m e) as [m1|] eqn:E; [|discriminate]. rewrite (IH _ _ H).
+    destruct e as [a|a x|o st n ok rs|snap|fin];
+      try (rewrite (mstep_other_reason _ _ _ _ E); [reflexivity|intros; discriminate]).
+    rewrite (mstep_write_reason _ _ _ _ _ _ _ _ E). now destruct o.
 Qed.
 
 Lemma mfold_mono sh tr o : forall m m',
@@ -206,13 +233,16 @@ Qed.
 Lemma release_after_terminal_write sh tr fin s :
   shape_wf sh = true -> run sh init (tr ++ [EvRelease fin]) = Some s ->
   is_terminal (ist (image_after tr) OPlan) = true /\
-  exists r, image_agrees (all_objs sh) (image_after tr) r fin = true.
+  image_agrees (all_objs sh) (image_after tr) (reason_after tr) fin = true.
 Proof.
   intros _ H. destruct (product_c08 sh _ s H) as (m & Hf & _).
   rewrite mfold_app in Hf. destruct (mfold sh m0 tr) as [m1|] eqn:E1; [|discriminate].
-  pose proof (mfold_img _ _ _ _ E1) as I1. simpl in I1. unfold image_after. rewrite <- I1.
+  pose proof (mfold_img _ _ _ _ E1) as I1. pose proof (mfold_reason _ _ _ _ E1) as I2. simpl in I1, I2.
+  unfold image_after, reason_after. rewrite <- I1, <- I2.
   simpl in Hf. unfold mstep, mstep_c in Hf.
   destruct (is_terminal (ist (m_img m1) OPlan)); [|simpl in Hf; discriminate]. split; auto.
-  exists (m_reason m1).
-  destruct (image_agrees (all_objs sh) (m_img m1) (m_reason m1) fin); [reflexivity|simpl in Hf; discriminate].
+  cbn [negb] in Hf.
+  destruct (image_agrees (all_objs sh) (m_img m1) (im_reason fin) fin) eqn:A; [|simpl in Hf; discriminate].
+  destruct (reason_eqb (m_reason m1) (im_reason fin)) eqn:Rq; [|simpl in Hf; discriminate].
+  apply reason_eqb_eq in Rq. now rewrite Rq.
 Qed.
